@@ -33,6 +33,12 @@ ASSUMPTIONS = [
     "jobs scheduled during the final drain (after the last event was handled) are outside the property (CHANGELOG 1.6.1)",
     "drain family: 5, 6 and 7 (thorough: 8) jobs at distinct times beyond the last event in all 120 / 720 / 5040 insertion orders, all 243 5-tuples "
     "over {35, 40, 45}; max_concurrent 2; no suspension choices (deviation bound 0)",
+    "a job that is started 3 times is not started again: the harness stops the run there and the execution is reported "
+    "(job-ran-twice), so a dispatcher that runs one job again and again cannot hang the check; virtual-loop step cap 20 000",
+    "jobs scheduled from a running job: for an earlier / equal / later time than the scheduling job's own, the scheduling "
+    "job being up front or scheduled from a handler, before the first event / between events / in the final drain (there "
+    "only 'at most once' is demanded of the new job, 'exactly once' of the scheduling one); one time (2) earlier than "
+    "everything else",
     "a job with the same time as an event may run before or after that timestamp's events; the clock a job sees is only "
     "bounded from below (the statement says 'at or after its scheduled time')",
 ]
@@ -45,6 +51,8 @@ TIMES = (5, 10, 15, 25, 30, 35, 40, 45)
 SUBSEC = (25.2, 25.8, 35.8, 35.2)
 BOUNDS = {"quick": dict(max_jobs=3, deviation_bound=1, drain_jobs=(5, 6, 7)),
           "thorough": dict(max_jobs=4, deviation_bound=2, drain_jobs=(5, 6, 7, 8))}
+EARLY = 2          # a time before everything else (only used for a job scheduled from a job)
+RUN_CAP = 3        # a job that is started this often is not started again: the harness stops the run (reported as ran-twice)
 DRAIN_TIMES = (31, 32, 33, 34, 36, 37, 38, 39)
 EXPLANATION = ("implementation-level model checking: every explored trace is an execution of the real dispatcher; "
                "traces_validated_against_impl counts executions re-run from their recorded choices with identical "
@@ -60,14 +68,25 @@ def scenarios(tier, seed):
             modes = [("up",) * size, ("h10",) + ("up",) * (size - 1), ("h30",) + ("up",) * (size - 1)]
             if size >= 2:
                 modes.append(("up",) * (size - 1) + ("j0",))
+            if size == 2:
+                # the job that schedules another job (for an earlier / equal / later time than its own) is itself
+                # scheduled from a handler
+                modes += [("h10", "j0"), ("h30", "j0")]
             for mode in modes:
                 for maxc in (1, 2):
                     for raising in ((None, 0) if size <= 2 else (None,)):
                         out.append((jt, maxc, mode, raising, 1))
-                        if size <= 2:
+                        if size <= 2 and not (mode[0] != "up" and mode[-1] == "j0"):
                             out.append((jt, maxc, mode, raising, 2))
                             if maxc == 1 and raising is None:
                                 out.append((jt, maxc, mode, raising, 3))
+    # a job (up front, at every time of the grid: before the first event, between events, in the final drain) that
+    # schedules a job for a time earlier than every event and every job
+    for t0 in TIMES:
+        for mode in (("up", "j0"), ("h10", "j0")):
+            for maxc in (1, 2):
+                for raising in (None, 0):
+                    out.append(((t0, EARLY), maxc, mode, raising, 1))
     # drain family: many jobs beyond the last event, every insertion order, default schedule only
     # (one work item = all insertion orders that begin with one given job: see drain_members)
     for n in BOUNDS[tier]["drain_jobs"]:
@@ -127,9 +146,17 @@ def make_run(sc, states=None):
             await gates.suspend("h")
             trace.append(("ev-end", t, "a"))
 
+        runs = {}
+
         def job(i):
             async def j():
                 trace.append(("job", i, jt[i], now()))
+                runs[i] = runs.get(i, 0) + 1
+                if runs[i] >= RUN_CAP:
+                    # the same job again and again: cut the execution here (the oracle reports the repeated runs)
+                    trace.append(("run-cap", i))
+                    d.stop()
+                    return
                 if i == 0:
                     for k, m in enumerate(mode):
                         if m == "j0":
@@ -159,7 +186,7 @@ def make_run(sc, states=None):
             note()
             return gates.on_quiescent(loop)
 
-        out, exc, loop = run_on_vloop(lambda loop: d.run(stop_signals=[]), on_quiescent=quiescent)
+        out, exc, loop = run_on_vloop(lambda loop: d.run(stop_signals=[]), on_quiescent=quiescent, max_steps=20000)
         if exc is not None:
             out = "raised:" + type(exc).__name__
         return trace, out, [str(c.get("message"))[:60] for c in loop.errors] + [w[1][:60] for w in loop.warnings]
@@ -185,13 +212,19 @@ def oracle(sc, trace, out, errs):
     ran = [x for x in trace if x[0] == "job"]
     covered = []
     for i, m in enumerate(mode):
-        covered.append(m != "j0" or jt[0] <= EVENTS[-1])
+        # (a job scheduled by job 0 while job 0 runs in the final drain is outside the property: job 0 runs there when it
+        # lies beyond the last event or was itself scheduled by the handler of the last event)
+        covered.append(m != "j0" or (jt[0] <= EVENTS[-1] and mode[0] != "h30"))
     for i, t in enumerate(jt):
         n = sum(1 for x in ran if x[1] == i)
         if covered[i] and n != 1:
             bad.append(("job-not-run" if n == 0 else "job-ran-twice", f"job{i}@{t} ({where(t)}, {mode[i]}) ran {n}x"))
         if not covered[i] and n > 1:
             bad.append(("job-ran-twice", f"job{i}@{t} ran {n}x"))
+    if any(x[0] == "run-cap" for x in trace):
+        # the harness cut the execution because one job was started RUN_CAP times: the counts above say it all, the rest of
+        # the trace is that of an aborted run
+        return bad
     for x in ran:
         if x[3] < x[2]:
             bad.append(("job-early", f"job{x[1]}@{x[2]} ran with clock {x[3]}"))
